@@ -33,6 +33,7 @@ var transparentPrefixes = []string{
 	"github.com/tendermint/tendermint/abci/types",
 	"github.com/icza/gog", // tiny generic helpers (If, Ptr, ...)
 	"github.com/shutter-network/shutter/shlib/puredkg", // the DKG state machine (plain Go; its shcrypto calls need stubs)
+	"io/fs",               // FileMode predicates
 	"slices",              // generic slice helpers of the standard library (plain loops)
 }
 
@@ -42,7 +43,7 @@ func (e *Engine) transparentPkg(path string) bool {
 	}
 	for _, p := range transparentPrefixes {
 		if path == p || strings.HasPrefix(path, p+"/") {
-			if strings.HasPrefix(path, "github.com/ethereum/go-ethereum/common/") && path != "github.com/ethereum/go-ethereum/common/math" {
+			if strings.HasPrefix(path, "github.com/ethereum/go-ethereum/common/") && path != "github.com/ethereum/go-ethereum/common/math" && path != "github.com/ethereum/go-ethereum/common/lru" {
 				return false
 			}
 			return true
